@@ -12,6 +12,7 @@ import (
 	"fmt"
 	"net"
 	"os"
+	"runtime"
 	"strings"
 	"sync"
 	"testing"
@@ -393,4 +394,30 @@ func clu8Query(s *Store, sql string, lvl proto.ConsistencyLevel, linTimeout time
 		return "", got, nil
 	}
 	return asJSON(rows[0].Values), got, nil
+}
+
+// clu8Guard runs f under a watchdog. If f does not finish within d it returns false and a
+// (trimmed) dump of all goroutines; f keeps running in the background (its cluster is
+// leaked), so that one blocked raft call cannot block a whole check.
+func clu8Guard(d time.Duration, f func()) (bool, string) {
+	done := make(chan struct{})
+	go func() {
+		defer close(done)
+		f()
+	}()
+	select {
+	case <-done:
+		return true, ""
+	case <-time.After(d):
+		buf := make([]byte, 1<<20)
+		n := runtime.Stack(buf, true)
+		dump := string(buf[:n])
+		if i := strings.Index(dump, "store.(*Store)."); i > 3000 {
+			dump = dump[i-3000:]
+		}
+		if len(dump) > 16000 {
+			dump = dump[:16000]
+		}
+		return false, dump
+	}
 }
